@@ -59,6 +59,11 @@ func (seg Segment) Raycast(point Point) RaycastResult {
 	}
 
 	// do the actual raycast here.
+	if math.IsInf(p.Y, 1) {
+		// an infinite y cannot be moved above the segment points, the loop
+		// below would never end.
+		return RaycastResult{false, false}
+	}
 	for p.Y == a.Y || p.Y == b.Y {
 		p.Y = math.Nextafter(p.Y, math.Inf(1))
 	}
